@@ -303,7 +303,7 @@ def behaviours_from_tlc(rep, tier):
     rep.add_tlc(res)
     behs = res.payloads("BEH")
     if tier == "thorough":
-        sim = tlc.run("VTKWriterGen.tla", "VTKWriterGen_sim.cfg", simulate=3000, depth=12, seed=common.seed() + 1,
+        sim = tlc.run("VTKWriterGen.tla", "VTKWriterGen_sim.cfg", simulate=2000, depth=12, seed=common.seed() + 1,
                       label="simulate", timeout=1500)
         if tlc.require_ok(sim, rep, "simulate"):
             rep.add_tlc(sim)
@@ -323,7 +323,7 @@ def select(behs, tier, rng):
         else:
             rest.append(b)
     chosen = list(by_state.values())
-    extra = 1500 if tier == "quick" else 20000
+    extra = 1500 if tier == "quick" else 6000
     rng.shuffle(rest)
     chosen += rest[:extra]
     return chosen, len(by_state)
@@ -355,7 +355,7 @@ def main(tier, replay=None):
                 ops = list(b["ops"])
                 ops += [dict(op="Write"), dict(op="Write")]
                 # every behaviour on one order (round robin); state-coverage ones on all four in thorough
-                for order in (orders if (tier == "thorough" and i < nstates) else [orders[i % 4]]):
+                for order in (orders if (tier == "thorough" and i < nstates and i % 8 == 0) else [orders[i % 4]]):
                     tid += 1
                     s = rng.randrange(1 << 30)
                     try:
